@@ -149,6 +149,95 @@ def r151(ctx):
             ctx.bad(rid, r, "System.copy does not return a new object: copies of a path alias the original's frames")
 
 
+def r153(ctx):
+    """paste_paths: backward segment reversed, then the forward segment minus exactly one shared
+    point iff `overlap`; every visited frame is appended; Path.append refuses at the limit."""
+    rid = "R-15.3"
+    tree = ctx.tree
+    f = tree.func(PATH, "paste_paths")
+    params = [a.arg for a in f.args.args]
+    if len(params) < 3:
+        raise AnalysisError("R-15.3: paste_paths(path_back, path_forw, overlap, ...) expected")
+    pb, pf, ov = params[0], params[1], params[2]
+    cfg = cfg_of(f)
+    loops = [n for n in f.body if isinstance(n, ast.For)]
+    if len(loops) != 2:
+        raise AnalysisError(f"R-15.3: paste_paths has {len(loops)} top-level loops (expected 2: backward, forward)")
+    lb, lf = loops
+    # (a) backward loop iterates reversed(path_back.phasepoints)
+    itb = ast.unparse(lb.iter)
+    if itb in (f"reversed({pb}.phasepoints)", f"{pb}.phasepoints[::-1]"):
+        ctx.ok(rid, lb, "the backward segment is visited in reverse (time order)")
+    else:
+        ctx.bad(rid, lb, f"the first loop of paste_paths iterates `{itb}`, not the backward segment in reverse: the pasted path is not time ordered / does not begin with the last backward frame", construct="paste_paths first loop over " + itb)
+    # (b) forward loop iterates path_forw.phasepoints in order
+    itf = ast.unparse(lf.iter)
+    if itf == f"{pf}.phasepoints":
+        ctx.ok(rid, lf, "the forward segment is visited in order after the backward one")
+    else:
+        ctx.bad(rid, lf, f"the second loop of paste_paths iterates `{itf}`, not the forward segment in order", construct="paste_paths second loop over " + itf)
+    # (c) every visited frame is appended (append on every path through the body that does not `continue`)
+    for L, nm in ((lb, "backward"), (lf, "forward")):
+        apps = [c for c in ast.walk(L) if isinstance(c, ast.Call) and isinstance(c.func, ast.Attribute) and c.func.attr == "append" and c.args and isinstance(c.args[0], ast.Name) and isinstance(L.target, ast.Name) and c.args[0].id == L.target.id]
+        conts = [n for n in ast.walk(L) if isinstance(n, ast.Continue)]
+        top_level = [st for st in L.body if any(a in list(ast.walk(st)) for a in apps) and isinstance(st, (ast.Assign, ast.Expr))]
+        if apps and top_level:
+            ctx.ok(rid, apps[0], f"every {nm} frame that is not skipped is appended (unconditional append in the loop body)")
+        else:
+            ctx.bad(rid, L, f"the {nm} loop of paste_paths does not append every frame it visits: the length is not len(back) + len(forward) - shared", construct=f"paste_paths {nm} loop without unconditional append")
+        if nm == "backward" and conts:
+            ctx.bad(rid, conts[0], "the backward loop of paste_paths skips frames", construct="continue in backward loop")
+        if nm == "forward":
+            # (d) exactly one skip, iff overlap
+            if len(conts) != 1:
+                ctx.bad(rid, L, f"the forward loop of paste_paths has {len(conts)} `continue` statements (expected exactly one: the shared point)", construct="forward loop continue count")
+                continue
+            cont = conts[0]
+            gi = getattr(cont, "_parent", None)
+            if not isinstance(gi, ast.If) or gi not in L.body:
+                raise AnalysisError("R-15.3: the skip of the shared point is not a top-level `if` of the forward loop")
+            names = set()
+            t = gi.test
+            okform = isinstance(t, ast.BoolOp) and isinstance(t.op, ast.And) and all(isinstance(v, ast.Name) for v in t.values)
+            if okform:
+                names = {v.id for v in t.values}
+            flag = next(iter(names - {ov}), None) if okform and ov in names and len(names) == 2 else None
+            if flag is None:
+                ctx.bad(rid, gi, f"the shared point is skipped under `{short(t, 40)}`, not under `<first-iteration flag> and {ov}`: a frame is dropped when the segments do not overlap, or none when they do", construct="skip condition " + short(t, 40))
+                continue
+            # flag: True before the loop, set False inside the skipping branch, never set True in the loop
+            sets_false = any(isinstance(s, ast.Assign) and isinstance(s.targets[0], ast.Name) and s.targets[0].id == flag and isinstance(s.value, ast.Constant) and s.value.value is False for s in gi.body)
+            init_true = False
+            idx = f.body.index(L)
+            for s in f.body[:idx]:
+                if isinstance(s, ast.Assign) and isinstance(s.targets[0], ast.Name) and s.targets[0].id == flag:
+                    init_true = isinstance(s.value, ast.Constant) and s.value.value is True
+            other_sets = [s for s in ast.walk(L) if isinstance(s, ast.Assign) and isinstance(s.targets[0], ast.Name) and s.targets[0].id == flag and not (isinstance(s.value, ast.Constant) and s.value.value is False)]
+            first_stmt = L.body[0] is gi
+            if sets_false and init_true and not other_sets and first_stmt:
+                ctx.ok(rid, gi, f"exactly the first forward frame is skipped, and only when `{ov}` (flag `{flag}`: True before the loop, cleared in the skipping branch, never set again)")
+            else:
+                ctx.bad(rid, gi, "the skip of the shared point is not limited to the first forward frame (flag not initialised True / not cleared in the branch / set again / test not first in the body): more or fewer than one frame is dropped", construct="one-shot skip flag " + flag)
+    # (e) the new path is created with the limit and Path.append refuses at the limit
+    ap = tree.func(PATH, "Path.append")
+    okc = False
+    for c in [x for x in ast.walk(ap) if isinstance(x, ast.Compare) and len(x.ops) == 1]:
+        l, r, op = ast.unparse(c.left), ast.unparse(c.comparators[0]), c.ops[0]
+        if (l, r) == ("self.length", "self.maxlen") and isinstance(op, ast.Lt) or (l, r) == ("self.maxlen", "self.length") and isinstance(op, ast.Gt) or (l, r) == ("len(self.phasepoints)", "self.maxlen") and isinstance(op, ast.Lt):
+            okc = True
+            ctx.ok(rid, c, "Path.append adds a frame only while length < maxlen: a path never exceeds its limit")
+        elif "maxlen" in (l + r) and "length" in (l + r) or "maxlen" in (l + r) and "phasepoints" in (l + r):
+            okc = True
+            ctx.bad(rid, c, f"Path.append admits a frame under `{short(c, 40)}`: a path can grow beyond its length limit (or stops one short)", construct="append limit test " + short(c, 40))
+    if not okc:
+        raise AnalysisError("R-15.3: no comparison of length with maxlen in Path.append")
+    ep = [c for c in walk_local(f) if isinstance(c, ast.Call) and last_name(c) == "empty_path"]
+    if ep and any(k.arg == "maxlen" and ast.unparse(k.value) == "maxlen" for k in ep[0].keywords):
+        ctx.ok(rid, ep[0], "the pasted path is created with the requested limit")
+    else:
+        ctx.bad(rid, ep[0] if ep else f, "the pasted path is not created with the requested length limit", construct="empty_path without maxlen=maxlen")
+
+
 def r152(ctx):
     from .shared import numeric_option_truthiness
     numeric_option_truthiness(ctx, "R-15.2", [PATH], "start/end classification would use the wrong interface when an interface is exactly 0.0")
@@ -156,12 +245,21 @@ def r152(ctx):
 
 def run(ctx):
     ctx.rule("R-15.2", "optional interface parameters of the classification functions are tested with `is None`, never by truthiness (an interface at 0.0 is a legal value)", floor=2)
+    ctx.rule("R-15.3", "paste_paths: reversed backward segment, then the forward segment minus exactly its first frame iff overlap; every visited frame appended; Path.append refuses at the limit (length = len(back) + len(forward) - shared, truncated at maxlen)", floor=6)
     ctx.rule("R-15.1", "copy / reverse / += add fresh frame copies; reverse mutates only the new path; System.copy returns a new object; flag toggle is an involution", floor=10)
     ctx.attempt(r151, ctx)
     ctx.attempt(r152, ctx)
+    ctx.attempt(r153, ctx)
 
 
 VARIANTS = [
+    B("c15-paste-backward-not-reversed", PATH, "    for phasepoint in reversed(path_back.phasepoints):\n        app = new_path.append(phasepoint)", "    for phasepoint in path_back.phasepoints:\n        app = new_path.append(phasepoint)", "R-15.3", control=True),
+    B("c15-paste-skip-without-overlap", PATH, "        if first and overlap:\n            first = False\n            continue", "        if first:\n            first = False\n            continue", "R-15.3"),
+    B("c15-paste-skip-every-frame", PATH, "        if first and overlap:\n            first = False\n            continue", "        if first and overlap:\n            continue", "R-15.3"),
+    B("c15-append-beyond-limit", PATH, "        if self.maxlen is None or self.length < self.maxlen:", "        if self.maxlen is None or self.length <= self.maxlen:", "R-15.3"),
+    B("c15-paste-forward-reversed", PATH, "    for phasepoint in path_forw.phasepoints:\n        if first and overlap:", "    for phasepoint in reversed(path_forw.phasepoints):\n        if first and overlap:", "R-15.3"),
+    B("c15-paste-no-limit", PATH, "    new_path = path_back.empty_path(maxlen=maxlen, time_origin=time_origin)", "    new_path = path_back.empty_path(time_origin=time_origin)", "R-15.3"),
+    K("c15-keep-paste-flag-renamed", PATH, "    first = True\n    for phasepoint in path_forw.phasepoints:\n        if first and overlap:\n            first = False\n            continue", "    shared = True\n    for phasepoint in path_forw.phasepoints:\n        if overlap and shared:\n            shared = False\n            continue"),
     B("c15-reverse-appends-original", PATH, "            new_point = phasepoint.copy()\n            if rev_v:\n                self.reverse_velocities(new_point)\n            new_path.append(new_point)", "            new_point = phasepoint\n            if rev_v:\n                self.reverse_velocities(new_point)\n            new_path.append(new_point)", "R-15.1", control=True),
     B("c15-copy-shares-frames", PATH, "        for phasepoint in self.phasepoints:\n            new_path.append(phasepoint.copy())", "        for phasepoint in self.phasepoints:\n            new_path.append(phasepoint)", "R-15.1"),
     B("c15-iadd-shares-frames", PATH, "            app = self.append(phasepoint.copy())", "            app = self.append(phasepoint)", "R-15.1"),
